@@ -185,6 +185,11 @@ func (r *Rows) Columns() []string {
 func (r *Rows) Next(dest []driver.Value) error {
 	row, ok := <-r.rows
 	if !ok {
+		if r.err == io.EOF {
+			// a read past the end of a truncated file. A bare io.EOF from
+			// Next means "no more rows" to database/sql.
+			return io.ErrUnexpectedEOF
+		}
 		if r.err != nil {
 			return r.err
 		}
